@@ -13,6 +13,18 @@ import (
 // Each conjunct becomes its own obligation (smaller goals, failures pinned to a conjunct).
 func splitExpr(e Expr) []Expr {
 	switch x := e.(type) {
+	case *ECall:
+		// a boolean ite(c, A, B) at clause level: c ==> A and !c ==> B
+		if x.Fun == "ite" && len(x.Args) == 3 {
+			var out []Expr
+			for _, r := range splitExpr(x.Args[1]) {
+				out = append(out, &EBinary{"==>", x.Args[0], r})
+			}
+			for _, r := range splitExpr(x.Args[2]) {
+				out = append(out, &EBinary{"==>", &EUnary{"!", x.Args[0]}, r})
+			}
+			return out
+		}
 	case *EBinary:
 		switch x.Op {
 		case "&&":
@@ -38,7 +50,7 @@ func splitExpr(e Expr) []Expr {
 
 // obligeClause creates one obligation per conjunct of a clause and returns the whole goal.
 func (f *frame) obligeClause(kind, name string, env *specEnv, cl *Clause, guard Term, pos token.Position, models bool) Term {
-	parts := splitExpr(cl.E)
+	parts := splitExpr(expandMacros(cl.E))
 	var all []Term
 	for i, p := range parts {
 		v := env.eval(p)
